@@ -655,7 +655,9 @@ LEVEL_TEXT = ("Mixed. Proved (E2): symmetric_extension_hierarchy and ppt_disting
               "list of states is not modified). The value relations (PPT <= global, >= LOCC, primal = dual, Bell states, invariances, level 1 = PPT, monotone in the level) "
               "are bounded run-time contract checks with exact feasibility certificates. Proved (E1-prog, 2 and 3 states, all dimensions / priors / cuts): ppt_distinguishability "
               "hands the solver exactly the stated program (primal: max sum_i p_i <rho_i, M_i> s.t. M_i >= 0, sum M_i = I, PT(M_i) >= 0; dual: min Tr Y s.t. Y - p_i rho_i >= PT(Q_i), Q_i >= 0), "
-              "solves it once with the caller's solver and returns its optimum; the entry point dispatches by primal_dual with probs or the uniform prior.")
+              "solves it once with the caller's solver and returns its optimum; the entry point dispatches by primal_dual with probs or the uniform prior. "
+              "symmetric_extension_hierarchy (density matrices, dim = [d_A, d_B] for d_A, d_B in 2..3, level 1..2 (3 thorough), 1..3 states) builds max sum_k p_k <rho_k, M_k> s.t. "
+              "M_k = Tr_ext X_k, X_k >= 0, M_k >= 0, X_k invariant under I (x) P_sym, PT over the first party and over every extension copy >= 0, sum_k M_k = I, and returns its optimum.")
 EXPLANATION = LEVEL_TEXT
 TECHNIQUE = "frame clause by taint analysis of the real AST (E2) + program contracts of the picos builders (E1-prog, z3) + bounded run-time-checked contracts with certificates"
 TRUSTED.append("E1-prog (program contracts): matrices and picos variables are uninterpreted terms; picos semantics assumed (>> / << Loewner order, | Hilbert-Schmidt inner product, picos.partial_transpose by its name and keyword arguments); linearity of the inner product and Tr(AB) = <A,B> for Hermitian A as z3 axioms; the solver returns the optimum of the program it is handed (certified only on the bounded tier); number of states enumerated (2, 3; 4 thorough)")
